@@ -421,9 +421,10 @@ static void append_chunked(vh::Rng& r, Wire& w, const std::string& body) {
 }
 
 // `small` keeps the message short (used as base of mutations and for exhaustive split-point pairs)
-static Wire gen_valid(vh::Rng& r, bool thorough, bool small) {
+static Wire gen_valid(vh::Rng& r, bool thorough, bool small, int force_req = -1) {
     Wire w;
     w.is_req = r.chance(1, 2);
+    if (force_req >= 0) w.is_req = force_req;
     w.cap = r.pick<uint16_t>({65535, 65535, 65535, 40000, 20000, 12000, 9400});
     // framing
     int fr = r.below(10);
@@ -617,21 +618,24 @@ struct Tuple {
     std::string start;                                               // request line / status line as the API exposes it
     std::vector<std::pair<std::string, std::string>> hdrs;            // iteration order, raw
     uint64_t body_size_api = 0;
-    std::string body;
+    uint64_t body_len = 0, body_hash = 0;                            // the body bytes read (summary; compared across runs)
+    std::string body_head;                                           // first bytes, for witnesses
+    int body_rel = -1;                                               // vs the expected payload: 0 equal, 1 proper prefix of it, 2 longer (payload is a prefix), 3 other, -1 n/a
     int end_status = 2;                                              // 0 end-of-body seen, -1 error, 2 body not read
     std::vector<std::pair<int, std::string>> lookups;                 // per probe key: equal_range count, operator[] value
     // not compared:
     uint64_t calls = 0, hdr_consumed = 0, hdr_recvs = 0;
+    int index_miss = 0;          // fields that the iteration lists but find() with the identical spelling does not find
     bool raw_equal(const Tuple& o) const {
         return rc_hdr == o.rc_hdr && start == o.start && hdrs == o.hdrs && body_size_api == o.body_size_api &&
-               body == o.body && end_status == o.end_status && lookups == o.lookups;
+               body_len == o.body_len && body_hash == o.body_hash && end_status == o.end_status && lookups == o.lookups;
     }
     std::string first_diff(const Tuple& o) const {
         if (rc_hdr != o.rc_hdr) return "header-status";
         if (start != o.start) return "start-line";
         if (hdrs != o.hdrs) return "headers";
         if (body_size_api != o.body_size_api) return "body-size";
-        if (body != o.body) return "body";
+        if (body_len != o.body_len || body_hash != o.body_hash) return "body";
         if (end_status != o.end_status) return "end-of-body";
         if (lookups != o.lookups) return "header-lookup";
         return "";
@@ -640,8 +644,8 @@ struct Tuple {
         vh::JArr h;
         for (size_t i = 0; i < hdrs.size() && i < 8; ++i) h.raw(vh::JArr().add(esc(hdrs[i].first, 60)).add(esc(hdrs[i].second, 60)).str());
         return vh::JObj().kv("rc_header", rc_hdr).kv("start", esc(start, 120)).kv("n_headers", (uint64_t)hdrs.size()).raw("headers_first8", h.str())
-            .kv("body_size_api", body_size_api).kv("body_len", (uint64_t)body.size()).kv("body_head", esc(body, 60))
-            .kv("body_hash", vh::hash_bytes(body.data(), body.size())).kv("end_status", end_status).kv("mock_calls", calls).str();
+            .kv("body_size_api", body_size_api).kv("body_len", body_len).kv("body_head", esc(body_head, 60))
+            .kv("body_hash", body_hash).kv("end_status", end_status).kv("mock_calls", calls).kv("index_lookup_misses", index_miss).str();
     }
 };
 
@@ -682,7 +686,7 @@ static const std::vector<std::string>* g_probe_keys = nullptr;     // header nam
 
 // rseed drives the sizes of the body reads
 static Tuple run_parse(const std::string& bytes, bool is_req, Verb resp_to, uint16_t cap, const Plan& plan, int fill,
-                       uint64_t rseed, bool guard, bool nul_guard, ParseCtx cx) {
+                       uint64_t rseed, bool guard, bool nul_guard, ParseCtx cx, const std::string* expect_body = nullptr) {
     cx.bytes = &bytes; cx.plan = &plan; cx.fill = fill; cx.cap = cap;
     g_shm->stage_fill = fill;
     Tuple t;
@@ -704,7 +708,7 @@ static Tuple run_parse(const std::string& bytes, bool is_req, Verb resp_to, uint
     else { rs = new XResp(cb.p, cap); rs->reset(cb.p, cap, false, &m, false, resp_to); msg = rs; }
     t.rc_hdr = is_req ? rq->receive_header() : rs->receive_header();
     t.hdr_consumed = m.pos; t.hdr_recvs = m.recv_calls;
-    cadd(K_PARSES); g_shm->events++;
+    cadd(K_PARSES); if (!g_confirm) g_shm->events++;
     if (t.rc_hdr == 0) {
         bool c;
         auto add = [&](std::string_view v, const char* what) {
@@ -727,6 +731,7 @@ static Tuple run_parse(const std::string& bytes, bool is_req, Verb resp_to, uint
             view_ok(k, cb.p, cap, t.hdr_consumed, cx, "header-name", ck);
             view_ok(v, cb.p, cap, t.hdr_consumed, cx, "header-value", cv);
             t.hdrs.push_back({ck ? std::string(k) : std::string("?"), cv ? std::string(v) : std::string("?")});
+            if (ck && msg->headers.find(k) == msg->headers.end()) t.index_miss++;
         }
         t.body_size_api = msg->body_size();
         if (g_probe_keys)
@@ -737,31 +742,46 @@ static Tuple run_parse(const std::string& bytes, bool is_req, Verb resp_to, uint
                 view_ok(v, cb.p, cap, t.hdr_consumed, cx, "header-value", cv);
                 t.lookups.push_back({(int)er.second.i - (int)er.first.i, cv ? std::string(v) : std::string("?")});
             }
-        // body
+        // body: destination buffers are exact-size heap blocks (an overflow of the caller's buffer is visible to ASan);
+        // blocks of the recurring sizes are kept and reused, the others are allocated per call
+        static std::string acc;
+        acc.clear();
+        static std::map<size_t, std::vector<char*>> dpool;
+        std::vector<std::pair<size_t, char*>> borrowed;
+        auto get = [&](size_t cnt) {
+            char* d;
+            auto& v = dpool[cnt];
+            if (!v.empty()) { d = v.back(); v.pop_back(); } else d = (char*)malloc(cnt);
+            memset(d, 0xEE, cnt);
+            borrowed.push_back({cnt, d});
+            return d;
+        };
+        auto give_back = [&] {
+            for (auto& b : borrowed) { if (b.first <= 8 || b.first == 100 || b.first == 64 || b.first >= 1000) dpool[b.first].push_back(b.second); else free(b.second); }
+            borrowed.clear();
+        };
         size_t limit = bytes.size() + 16;
         bool tiny = bytes.size() <= 3000 && r.chance(1, 3);
         while (true) {
             ssize_t n;
             bool use_v = r.chance(1, 3);
             if (!use_v) {
-                size_t cnt = tiny ? r.range(1, 3) : r.pick<size_t>({1, 7, 100, 1000, 4095, 4096, 4097, 8192, 20000, r.range(1, 5000)});
-                char* d = (char*)malloc(cnt);
-                memset(d, 0xEE, cnt);
+                size_t cnt = tiny ? r.range(1, 3) : r.chance(1, 8) ? r.range(9, 999) : r.pick<size_t>({1, 7, 100, 1000, 4095, 4096, 4097, 8192, 20000});
+                char* d = get(cnt);
                 n = msg->read(d, cnt);
                 cadd(K_READ_CALLS);
                 if (n > (ssize_t)cnt) {
                     emit_violation(cx.family + "/read-returned-more-than-asked", "read() returned more than count", cx.witness());
                     n = cnt;
                 }
-                if (n > 0) t.body.append(d, n);
-                free(d);
+                if (n > 0) acc.append(d, n);
             } else {
                 int k = r.range(1, 4);
                 struct iovec iov[4];
                 size_t total = 0;
                 for (int i = 0; i < k; ++i) {
-                    size_t cnt = tiny ? r.range(1, 3) : r.pick<size_t>({1, 3, 64, 1000, 4096, 5000, r.range(1, 3000)});
-                    iov[i].iov_base = malloc(cnt); iov[i].iov_len = cnt; memset(iov[i].iov_base, 0xEE, cnt);
+                    size_t cnt = tiny ? r.range(1, 3) : r.chance(1, 8) ? r.range(9, 999) : r.pick<size_t>({1, 3, 64, 1000, 4096, 5000});
+                    iov[i].iov_base = get(cnt); iov[i].iov_len = cnt;
                     total += cnt;
                 }
                 n = msg->readv(iov, k);
@@ -771,11 +791,9 @@ static Tuple run_parse(const std::string& bytes, bool is_req, Verb resp_to, uint
                     n = total;
                 }
                 ssize_t left = n;
-                for (int i = 0; i < k; ++i) {
-                    if (left > 0) { size_t c2 = std::min<size_t>(left, iov[i].iov_len); t.body.append((char*)iov[i].iov_base, c2); left -= c2; }
-                    free(iov[i].iov_base);
-                }
+                for (int i = 0; i < k && left > 0; ++i) { size_t c2 = std::min<size_t>(left, iov[i].iov_len); acc.append((char*)iov[i].iov_base, c2); left -= c2; }
             }
+            give_back();
             if (n < 0) { t.end_status = -1; break; }
             if (n == 0) {
                 t.end_status = 0;
@@ -785,11 +803,16 @@ static Tuple run_parse(const std::string& bytes, bool is_req, Verb resp_to, uint
                     emit_violation(cx.family + "/bytes-after-end-of-body", "read() returned 0 (end of body) and then returned more bytes", cx.witness());
                 break;
             }
-            if (t.body.size() > limit) {
+            if (acc.size() > limit) {
                 emit_violation(cx.family + "/body-longer-than-input", "the body reader returned more bytes than the whole input contains", cx.witness());
                 break;
             }
             if (m.overrun) break;
+        }
+        t.body_len = acc.size(); t.body_hash = vh::hash_bytes(acc.data(), acc.size()); t.body_head = acc.substr(0, 64);
+        if (expect_body) {
+            auto& e = *expect_body;
+            t.body_rel = acc == e ? 0 : (acc.size() < e.size() && e.compare(0, acc.size(), acc) == 0) ? 1 : (acc.size() > e.size() && acc.compare(0, e.size(), e) == 0) ? 2 : 3;
         }
     }
     t.calls = m.calls;
@@ -869,7 +892,14 @@ static MMap multimap_of(const std::vector<std::pair<std::string, std::string>>& 
 }
 
 static void check_against_model(const Wire& w, const Tuple& t, const std::vector<std::string>& probes, ParseCtx& cx) {
-    auto key = [&](const char* what) { return cx.family + "/" + w.cls() + "/" + what; };
+    // A field that the iteration lists but that find() does not find under its own spelling means that the sorted
+    // index of the header is out of order; framing decisions (Content-Length / Transfer-Encoding / Connection lookups)
+    // then go wrong as a consequence. Such cases are keyed by this diagnosis instead of the message class.
+    auto key = [&](const char* what) {
+        if (!t.index_miss) return cx.family + "/" + w.cls() + "/" + what;
+        bool body = !strncmp(what, "body-", 5) || !strcmp(what, "no-end-of-body");
+        return cx.family + "/header-index-lookup-miss/" + (body ? "body-framing" : what);
+    };
     auto wit = [&](const std::string& extra) { return cx.witness(vh::JObj().raw("observed", t.json()).kv("expected_start", esc(model_start(w), 120))
                                                .kv("expected_body_len", (uint64_t)w.body.size()).kv("expected_headers", (uint64_t)w.headers.size()).kv("note", extra).str()); };
     if (t.rc_hdr != 0) { emit_violation(key("header-rejected"), "receive_header failed on a valid message inside the buffer budget", wit("")); return; }
@@ -878,10 +908,9 @@ static void check_against_model(const Wire& w, const Tuple& t, const std::vector
     // (lookups by name are part of the raw tuple compared across fragmentations and fills; whether a lookup finds a
     //  field is decided by the library's case folding, which is not the subject of this property)
     if (t.end_status != 0) emit_violation(key(t.end_status < 0 ? "body-read-error" : "no-end-of-body"), "reading the body of a complete valid message did not end with end-of-body", wit(""));
-    else if (t.body != w.body) {
-        std::string how = t.body.size() < w.body.size() && w.body.compare(0, t.body.size(), t.body) == 0 ? "body-short" :
-                          t.body.size() > w.body.size() && t.body.compare(0, w.body.size(), w.body) == 0 ? "body-long" : "body-mismatch";
-        emit_violation(key(how.c_str()), "the bytes read as body differ from the payload", wit(""));
+    else if (t.body_rel != 0) {
+        const char* how = t.body_rel == 1 ? "body-short" : t.body_rel == 2 ? "body-long" : "body-mismatch";
+        emit_violation(key(how), "the bytes read as body differ from the payload", wit(""));
     }
 }
 
@@ -904,12 +933,13 @@ static void run_valid_wire(vh::Rng& r, const Wire& w, size_t budget, const char*
         g_shm->stage_plan = pi;
         auto facts = plan_facts(w, p);
         int f1 = r.below(NFILL), f2 = (f1 + 1 + r.below(NFILL - 1)) % NFILL;
-        bool guard = !vh::is_asan() || r.chance(1, 4);
+        // (probe items: exact-size heap buffer under ASan, so that the report names the access)
+        bool guard = !vh::is_asan() || (nul_guard && r.chance(1, 4));
         uint64_t rseed = r.next();
         bool with_body = false;
         for (int f : {f1, f2}) {
             ParseCtx cx; cx.family = family; cx.cls = w.cls() + "/" + p.kind;
-            Tuple t = run_parse(w.bytes, w.is_req, w.verb, w.cap, p, f, f == f1 ? rseed : r.next(), guard, nul_guard, cx);
+            Tuple t = run_parse(w.bytes, w.is_req, w.verb, w.cap, p, f, f == f1 ? rseed : r.next(), guard, nul_guard, cx, &w.body);
             cx.bytes = &w.bytes; cx.plan = &p; cx.fill = f; cx.cap = w.cap;
             if (!have_ref) { check_against_model(w, t, probes, cx); ref = t; have_ref = true; ref_desc = p.kind + "/" + fill_name[f]; }
             else if (!t.raw_equal(ref)) {
@@ -953,7 +983,7 @@ static void item_valid(int64_t idx) {
 // probe: the same with a caller buffer that contains no NUL byte at all
 static void item_probe(int64_t idx) {
     vh::Rng r(vh::mix(g_xseed, 0x4000000 + idx));
-    Wire w = gen_valid(r, false, true);
+    Wire w = gen_valid(r, false, true, 1);
     cadd(K_PROBE_ITEMS);
     run_valid_wire(r, w, 6, "valid-unterminated-buffer", false);
 }
@@ -1046,7 +1076,13 @@ static void item_roundtrip(int64_t idx) {
     std::string path = "/" + rnd_token(r, 0, 12) + (r.chance(1, 2) ? "/" + rnd_token(r, 1, 8) : "") + (r.chance(1, 3) ? "?q=" + rnd_token(r, 1, 8) : "");
     int nh = r.range(0, 6);
     std::vector<std::pair<std::string, std::string>> custom;
-    for (int i = 0; i < nh; ++i) custom.push_back({"X-" + rnd_token(r, 1, 10) + std::to_string(i), rnd_value(r, 60)});
+    // (names without y/z: the library's case folding of these two letters is a known finding of the header index, recorded
+    //  with the generated valid messages; the round trips are about the body writers)
+    for (int i = 0; i < nh; ++i) {
+        std::string k = "X-" + rnd_token(r, 1, 10) + std::to_string(i);
+        for (auto& c : k) if (c == 'y' || c == 'Y' || c == 'z' || c == 'Z') c = 'q';
+        custom.push_back({k, rnd_value(r, 60)});
+    }
     if (is_req) {
         w.verb = BODY_VERBS[r.below(sizeof(BODY_VERBS) / sizeof(Verb))];
         w.verb_s = std::string(verbstr[w.verb]); w.target = path;
@@ -1252,19 +1288,27 @@ static Mal gen_malformed(vh::Rng& r) {
     return m;
 }
 
-// structural diagnosis of a malformed input, used in keys (what kind of message makes the oracle fire)
-static std::string diagnose(const Mal& m) {
-    auto t = m.bytes.find("\r\n\r\n");
-    if (t != std::string::npos) {
-        auto e = m.bytes.find("\r\n");
-        size_t pos = e + 2;
-        while (pos < t + 2) {
-            auto le = m.bytes.find("\r\n", pos);
-            if (le == std::string::npos || le > t) break;
-            if (le > pos && m.bytes.substr(pos, le - pos).find(':') == std::string::npos) return "header-line-without-colon";
-            pos = le + 2;
-        }
+// Diagnosis used in the keys of differential violations on malformed input: replay the library's own scanning of the
+// start line and the header lines (net/http/parser.h: fields end at ':' and at CR, nothing else) over the bytes that had
+// been received when the header was parsed, and tell whether the scan arrives at the end of these bytes while still
+// looking for the empty line - the next byte it looks at is then the first byte after the received data.
+static bool header_scan_reaches_end(std::string_view b, bool is_req) {
+    size_t p = 0, n = b.size();
+    auto until = [&](char c) { auto q = b.find(c, p); if (q == b.npos) p = n; else p = q + 1; };
+    auto skip_str = [&](std::string_view x) { if (b.substr(p).substr(0, x.size()) == x) p += x.size(); };
+    auto skip_ch = [&](char c, bool rep) { while (p < n && b[p] == c) { ++p; if (!rep) return; } };
+    if (is_req) { until(' '); until(' '); skip_str("HTTP/"); until('\r'); skip_ch('\n', false); }
+    else { skip_str("HTTP/"); until(' '); while (p < n && isdigit((unsigned char)b[p])) ++p; skip_ch(' ', false); until('\r'); skip_ch('\n', false); }
+    if (p >= n) return false;          // nothing left: the header scan is not started
+    for (int guard = 0; guard < 100000; ++guard) {
+        if (p >= n) return true;
+        if (b[p] == '\r') return false;
+        until(':'); skip_ch(' ', true); until('\r'); skip_ch('\n', false);
     }
+    return false;
+}
+static std::string diagnose(const Mal& m, size_t received) {
+    if (header_scan_reaches_end(std::string_view(m.bytes).substr(0, received), m.is_req)) return "header-scan-reaches-end-of-received-bytes";
     auto plus = m.mut.find('+');
     return plus == std::string::npos ? m.mut : "stacked-mutations";
 }
@@ -1285,7 +1329,6 @@ static void item_malformed(int64_t idx) {
         plans.push_back(plan_cuts({(uint32_t)t4 + 4 + (uint32_t)r.range(1, 20)}, len, "header-plus-some-body"));
     }
     uint64_t bh = vh::hash_bytes(m.bytes.data(), len, 99);
-    std::string diag = diagnose(m);
     cadd(K_MAL_INPUTS, 0);
     for (size_t pi = 0; pi < plans.size(); ++pi) {
         auto& p = plans[pi];
@@ -1303,7 +1346,7 @@ static void item_malformed(int64_t idx) {
                 if (t.rc_hdr == 0) cadd(K_MAL_HDR_ACCEPTED); else if (t.rc_hdr == 1) cadd(K_MAL_HDR_EOS); else cadd(K_MAL_HDR_REJECTED);
                 if (t.end_status == -1) cadd(K_MAL_BODY_ERROR); else if (t.end_status == 0) cadd(K_MAL_BODY_EOF);
             } else if (!t.raw_equal(ref)) {
-                emit_violation("malformed/outside-bytes-influence/" + diag,
+                emit_violation("malformed/outside-bytes-influence/" + diagnose(m, ref.hdr_consumed),
                                "the result for the same bytes under the same fragmentation differs between two fills of the unused part of the caller's buffer (first difference: " +
                                    t.first_diff(ref) + ")",
                                cx.witness(vh::JObj().kv("mutation", m.mut).raw("this", t.json()).raw("with_fill_CR", ref.json()).str()));
@@ -1373,8 +1416,10 @@ static Death run_child(int kind, int64_t from, int64_t to, bool confirm) {
         pid_t w = waitpid(pid, &st, WNOHANG);
         if (w == pid) { d.status = st; break; }
         struct timespec ts = {0, 2000000};
+        auto before = vh::mono_ns();
         nanosleep(&ts, nullptr);
         auto now = vh::mono_ns();
+        if (now - before > 1000000000ull) { last_change = now; continue; }      // this process was frozen itself
         uint64_t p = g_shm->progress; int64_t c = g_shm->cur;
         if (p != last || c != last_cur) { last = p; last_cur = c; last_change = now; vh::progress(); continue; }
         // no call into the mock stream and no new item for 30 s: the item in flight does not terminate
@@ -1438,11 +1483,11 @@ static std::string describe_item(int kind, int64_t idx) {
     if (kind == KIND_MALFORMED) {
         vh::Rng r(vh::mix(g_xseed, 0x3000000 + idx));
         Mal m = gen_malformed(r);
-        o.kv("mutation", m.mut).kv("diagnosis", diagnose(m)).kv("request", m.is_req).kv("cap", (unsigned)m.cap).kv("len", (uint64_t)m.bytes.size())
+        o.kv("mutation", m.mut).kv("request", m.is_req).kv("cap", (unsigned)m.cap).kv("len", (uint64_t)m.bytes.size())
          .kv("input_escaped", esc(m.bytes, 600)).kv("input_hex", vh::hex(m.bytes.data(), m.bytes.size(), 800));
     } else if (kind == KIND_VALID || kind == KIND_PROBE) {
         vh::Rng r(vh::mix(g_xseed, (kind == KIND_VALID ? 0x1000000 : 0x4000000) + idx));
-        Wire w = kind == KIND_VALID ? gen_valid(r, g_thorough, r.chance(1, 3)) : gen_valid(r, false, true);
+        Wire w = kind == KIND_VALID ? gen_valid(r, g_thorough, r.chance(1, 3)) : gen_valid(r, false, true, 1);
         o.kv("class", w.cls()).kv("cap", (unsigned)w.cap).kv("len", (uint64_t)w.bytes.size()).kv("input_escaped", esc(w.bytes, 600))
          .kv("input_hex", vh::hex(w.bytes.data(), w.bytes.size(), 800));
     }
@@ -1515,10 +1560,11 @@ int main(int argc, char** argv) {
     memset((void*)g_shm, 0, sizeof(Shm));
 
     bool plain = !vh::is_asan();
-    int64_t n_valid = A.geti("valid", g_thorough ? 900 : 150) * (plain ? 3 : 1);
-    int64_t n_rt = A.geti("roundtrip", g_thorough ? 500 : 90) * (plain ? 3 : 1);
-    int64_t n_mal = A.geti("malformed", g_thorough ? 6000 : 900) * (plain ? 3 : 1);
-    int64_t n_probe = A.geti("probe", 3);
+    int64_t n_valid = A.geti("valid", g_thorough ? 300 : 60) * (plain ? 3 : 1);
+    int64_t n_rt = A.geti("roundtrip", g_thorough ? 150 : 40) * (plain ? 3 : 1);
+    int64_t n_mal = A.geti("malformed", g_thorough ? 2500 : 400) * (plain ? 3 : 1);
+    // the probe items die by design on the pinned tree (known finding) and a sanitizer report costs seconds: few of them
+    int64_t n_probe = A.geti("probe", A.exec % 4 == 0 ? 2 : 0);
     vh::config("valid_messages", n_valid); vh::config("roundtrip_cases", n_rt); vh::config("malformed_inputs", n_mal); vh::config("probe_items", n_probe);
 
     if (A.has("only")) {          // --cfg only=<kind>:<index> : one item, in this process (debugging / replay of a witness)
@@ -1526,9 +1572,9 @@ int main(int argc, char** argv) {
         int kind = 0;
         for (int i = 0; i < KIND_N; ++i) if (v.compare(0, strlen(kind_name[i]), kind_name[i]) == 0) kind = i;
         int64_t idx = atoll(v.substr(v.find(':') + 1).c_str());
+        int64_t cnt = A.geti("count", 1);
         photon::vcpu_init();
-        g_shm->cur = idx;
-        run_item(kind, idx);
+        for (int64_t i = idx; i < idx + cnt; ++i) { g_shm->cur = i; run_item(kind, i); }
         photon::vcpu_fini();
         merge_results();
         puts(describe_item(kind, idx).c_str());
